@@ -1062,6 +1062,7 @@ static size_t ZDICT_trainFromBuffer_unsafe_legacy(
             dictList->pos = n;
             dictContentSize = currentSize;
         }
+        if (dictContentSize < ZDICT_CONTENTSIZE_MIN) { free(dictList); return ERROR(dictionaryCreation_failed); }   /* nothing left after limiting to maxDictSize */
 
         /* build dict content */
         {   U32 u;
